@@ -40,6 +40,14 @@ CHECKS = {
              'documents\' own key alphabet, and wrapped with an unrelated sibling sequence; results (or failure classes) must correspond.',
         note='Relation between runs of the implementation; documented exception for an explicit !del stage root with an empty result.',
         design='4/C05'),
+    'C06': dict(
+        technique='property-based metamorphic testing with file-system layouts and fault injection (Hypothesis): random split plans of one document sequence over temp directories, deleted files, decoy files, !path reference points',
+        text='The same 2-5 documents are built as raw sources and through a random recursive split plan (separate files, multi-document files, '
+             '!include [..], several includes, nesting to depth 3) laid out over sub-directories with includer-relative, cwd-only and conflicting '
+             'names; key: !include [..] is compared with the merged files under the key; deleting files must give a PreprocessError naming them; '
+             '!path nodes of every reference point in files reached through include chains must denote the location computed from the file itself.',
+        note='One working directory per case; for missing files the error must name all missing files of at least one include node.',
+        design='4/C06'),
     'C07': dict(
         technique='property-based testing (Hypothesis): provenance invariant over a recorder log (unique ids per target/code, unique markers per literal) across generated merge histories with safe/unsafe sources, includes and !unsafe tags',
         text='Histories of 1-4 stages (direct or through !include, each with a source safe flag) writing function, scalar-dynamic and data slots '
